@@ -11,6 +11,12 @@ import traceback
 ROOT = os.path.dirname(os.path.dirname(os.path.dirname(os.path.abspath(__file__))))
 EVIDENCE_DIR = os.path.join(ROOT, "evidence")
 REPLAY_DIR = os.path.join(ROOT, "replays")
+if os.environ.get("VERIF_REPO", "/repo") != "/repo":
+    # detection experiments on a scratch worktree are not evidence: their output goes to a scratch directory
+    # (VERIF_OUT, default /tmp/verif-scratch-out), so that such runs can go on in parallel and never touch evidence/
+    _OUT = os.environ.get("VERIF_OUT") or "/tmp/verif-scratch-out"
+    EVIDENCE_DIR = os.path.join(_OUT, "evidence")
+    REPLAY_DIR = os.path.join(_OUT, "replays")
 KNOWN_FILE = os.path.join(ROOT, "known-findings.txt")
 NPROC = max(1, min(16, int(os.environ.get("VERIF_NPROC") or 0) or (os.cpu_count() or 2)))
 
